@@ -759,7 +759,7 @@ def gen_case(seed, i, tier):
         approx += ":%g" % amp
     elif approx == "omitted":
         cand = [j for j, q in net.points.items() if j != "X1" and (q.xy == "free" or q.z == "free")
-                and "constrained" not in (q.xy, q.z)]
+                and "constrained" not in (q.xy, q.z) and "fixed" not in (q.xy, q.z)]
         om = []
         for c in [str(c) for c in rng.permutation(cand)][:3]:
             kxy = {j for j, q in net.points.items() if q.xy != "none"} - set(om) - {c}
@@ -840,7 +840,13 @@ def run_chain(ck, case):
             ge = g
         else:
             g = xmlout.run_gama_local(texts[k], ck.tmp, name, args=case["args"], outputs=("xml",), trace=True)
-            ge = xmlout.run_gama_local(texts[k], ck.tmp, name + "e", args=case["args"], outputs=("export",))
+            # without --text/--html gama-local writes the XML to stdout: a run that exports *without* producing
+            # the XML needs another output
+            ge = xmlout.run_gama_local(texts[k], ck.tmp, name + "e", args=case["args"], outputs=("text", "export"))
+            ge.files.pop("text", None)
+        # only the exclusion events are used; the (large) `adjust` events are dropped at once
+        g.trace = [e for e in g.trace if e.get("kind") in ("rm_obs_abs_term", "rm_point")]
+        g.files.pop("xml", None)
         runs.append(g)
         exp_runs.append(ge)
         if k == ROUNDS or "export" not in ge.files:
@@ -1148,24 +1154,37 @@ def run(tier, seed, only=None):
                "blunders and undetermined points that gama removes; --export with and without --xml); each file "
                "read by an independent ElementTree reader and by gama's GKFparser (modeldrv); class = (kind, "
                "features, axes/handedness/unit, id class, approx, output mode, round, removed items)")
-    n = tier_n(tier, 64, 1500)
+    n = tier_n(tier, 240, 4000)
     idx = [k for k in range(n) if only is None or k == only]
 
     def work(k):
         case = gen_case(seed, k, tier)
         return case, run_chain(ck, case)
 
-    for case, res in runner.pmap(work, idx):
-        check_chain(ck, case, res, seed, tier)
+    for b in range(0, len(idx), 160):                  # batches bound the memory held by finished chains
+        for case, res in runner.pmap(work, idx[b:b + 160]):
+            check_chain(ck, case, res, seed, tier)
     ck.assumptions += [
         "the reader of the gkf text follows the manual (gama-local-input.texi) and gama-local.xsd",
-        "tolerances: angular values 1e-10 gon (sexagesimal export: half a unit of the printed 4th decimal of an arc "
-        "second), lengths 1e-9 m, heights 1e-9 m, stdev/covariances/parameters 1e-12 relative, coordinates 1e-9 m + 16 "
+        "tolerances: angular values 1e-10 gon (a larger difference that is within half a unit of the 4th decimal of an "
+        "arc second of a sexagesimal export gets the key suffix :sexagesimal-rounding), lengths 1e-9 m, heights 1e-9 m, stdev/covariances/parameters 1e-12 relative, coordinates 1e-9 m + 16 "
         "printed digits; adjustments 1e-7 m / 1e-6 relative (netlevel.compare_physical)",
         "parameters, heights and section lengths are generated with at most 8 significant digits (the export prints 8)",
-        "a run 'converged' if it needed fewer than the default limit of 5 linearisation iterations"]
+        "a run 'converged' if it needed fewer than the default limit of 5 linearisation iterations",
+        "relation (c) is evaluated only when relation (b) found no difference that changes the mathematical model "
+        "(such a difference is reported under its own model:<round>:<field> key), and only when both rounds excluded "
+        "the same observations for gross absolute terms (otherwise inconclusive)",
+        "chains whose adjustment XML is ill-formed because of XML specials in ids/extern (property C12) are examined "
+        "for relations (a), (b), (d) only"]
     if only is None:
-        ck.minimum = dict(evaluations=tier_n(tier, 120, 3000), distinct=40, **{"fixed-point comparisons": tier_n(tier, 20, 500)})
+        ck.minimum = dict(evaluations=tier_n(tier, 400, 7000), distinct=100,
+                          **{"fixed-point comparisons": tier_n(tier, 100, 2000), "exports": tier_n(tier, 400, 7000),
+                             "model pairs compared (reader view)": tier_n(tier, 400, 7000),
+                             "model pairs compared (parser view)": tier_n(tier, 400, 7000),
+                             "adjustment pairs compared": tier_n(tier, 150, 2500),
+                             "iteration checks": tier_n(tier, 150, 2500),
+                             "rounds with observations removed by gama (abs. term)": tier_n(tier, 30, 500),
+                             "rounds with points removed by gama": tier_n(tier, 15, 250)})
     return ck.finish()
 
 
